@@ -29,7 +29,7 @@ VerdictOf ==
              "element_out_of_contract", "string_limits", "invalid_utf8", "not_a_permutation", "input_modified", "predicate_false",
              "wrong_type", "internal_assertion", "filter_predicate_false", "hangs"},
     C12 |-> {"not_minimal_integer", "not_minimal_length", "elements_not_zero", "minimization_lost_failure"},
-    C18 |-> {"value_unreachable", "edge_not_hit", "seed_repeated", "cases_repeat", "float_edge_not_hit"} ]
+    C18 |-> {"value_unreachable", "edge_not_hit", "seed_repeated", "cases_repeat", "float_edge_not_hit", "constructor_panicked"} ]
 Verdicts == IF Property = "ALL" THEN UNION { VerdictOf[p] : p \in DOMAIN VerdictOf } ELSE VerdictOf[Property]
 
 NoLast == [c |-> "none"]
@@ -111,12 +111,15 @@ Fresh == /\ Is("fresh") /\ Adv
          /\ viol' = viol \cup If(~IsSet(Ev.seeds), "seed_repeated") \cup If(Ev.ncases > 1 /\ Ev.distinctCases < Ev.ncases, "cases_repeat")   \* 64-bit stream fingerprints of the test cases of one run
          /\ UNCHANGED <<scen, kind, last, nfinal>>
 
-Handled == {"hang", "scen.begin", "scen.end", "h.phase", "contract", "h.once.end", "run.end", "reach", "edge", "fresh"}
+\* a constructor called with parameters its documentation allows panicked: not one value of the contract can be produced
+GenPanic == /\ Is("genpanic") /\ Adv /\ viol' = viol \cup {"constructor_panicked"} /\ UNCHANGED <<scen, kind, last, nfinal>>
+
+Handled == {"hang", "scen.begin", "scen.end", "h.phase", "contract", "h.once.end", "run.end", "reach", "edge", "fresh", "genpanic"}
 \* the watchdog saw an invocation still running after 90 s: the library hung
 Hang == /\ Is("hang") /\ Adv /\ viol' = viol \cup {"hangs"} /\ UNCHANGED <<scen, kind, last, nfinal>>
 
 Other == /\ l <= Len(Trace) /\ Trace[l].ev \notin Handled /\ Adv /\ UNCHANGED <<scen, viol, kind, last, nfinal>>
-Next == Hang \/ ScenBegin \/ ScenEnd \/ Phase \/ Contract \/ OnceEnd \/ RunEnd \/ Reach \/ Edge \/ Fresh \/ Other
+Next == Hang \/ ScenBegin \/ ScenEnd \/ Phase \/ Contract \/ OnceEnd \/ RunEnd \/ Reach \/ Edge \/ Fresh \/ GenPanic \/ Other
 Spec == Init /\ [][Next]_vars
 
 HW == /\ TLCSet(1, IF l > TLCGet(1) THEN l ELSE TLCGet(1))
